@@ -4,8 +4,11 @@ import (
 	"fmt"
 	"go/ast"
 	"go/constant"
+	"go/parser"
 	"go/token"
 	"go/types"
+	"golang.org/x/tools/go/ssa"
+	"golang.org/x/tools/go/ssa/ssautil"
 	"strings"
 
 	"golang.org/x/tools/go/packages"
@@ -1168,4 +1171,263 @@ func (c *Ctx) lockPairing(rule string, rels ...string) {
 		}
 	}
 	run.Count("lock_sites", n)
+}
+
+// errorsLookedAt: in the non-test functions of the packages every error a call returns is looked
+// at (tested, returned, wrapped, logged, handed on). An error that is overwritten or ignored is
+// a failure that surfaces as a success ("unreadable files surface as errors", "a failure for one
+// asset does not go unreported"). Calls in accepted are exempt by callee name, with the reason.
+func (c *Ctx) errorsLookedAt(rule string, accepted map[string]string, rels ...string) {
+	run := c.Run
+	if !strings.Contains(run.Explanation, "No error result") {
+		run.Explanation += " No error result of a call in the packages analysed goes unread (SSA: an error stored into a variable cell and overwritten before any load counts as unread); nothing goes on with the value that came with an error that was only logged."
+	}
+	n := 0
+	for _, rel := range rels {
+		pk := c.P.Pkg(rel)
+		if pk == nil {
+			continue
+		}
+		for _, fi := range c.P.Decls {
+			if fi.Pkg != pk || fi.Decl.Body == nil || strings.HasSuffix(c.P.Fset.Position(fi.Decl.Pos()).Filename, "_test.go") {
+				continue
+			}
+			fn := c.ssaFunc(fi)
+			if fn == nil {
+				continue
+			}
+			for _, f := range withAnon(fn) {
+				for _, call := range droppedErrors(f) {
+					name := ""
+					if sc := call.Call.StaticCallee(); sc != nil {
+						name = sc.String()
+					} else if call.Call.IsInvoke() {
+						name = call.Call.Method.FullName()
+					}
+					n++
+					_, ok := accepted[name]
+					run.Oblige(ok)
+					if !ok {
+						c.violate(rule, load.FuncName(fi.Fn), "error of "+name, call.Pos(), "the error returned by "+name+" is never looked at here (overwritten or ignored): a failure is taken for a success")
+					}
+				}
+			}
+		}
+	}
+	run.Count("ignored_error_sites", n)
+	okSample := droppedErrorsSelfTest()
+	run.Oblige(okSample)
+	if !okSample {
+		run.Break("the ignored-error detector does not classify its built-in examples as expected")
+	}
+}
+
+// droppedErrorsSelfTest: the detector finds the two ignored errors of a built-in example (the
+// rule's expected count on this code base is zero).
+func droppedErrorsSelfTest() bool {
+	const src = `package p
+func f() error { return nil }
+func g() { f() }
+func h() error { err := f(); err = f(); return err }
+func k() error { if err := f(); err != nil { return err }; return nil }
+func m() func() error { err := f(); return func() error { err = f(); return err } }
+func n() func() error { err := f(); return func() error { return err } }
+func o() error { var err error; func() { err = f() }(); return err }`
+	fset := token.NewFileSet()
+	file, err := parser.ParseFile(fset, "p.go", src, 0)
+	if err != nil {
+		return false
+	}
+	pkg := types.NewPackage("p", "p")
+	sp, _, err := ssautil.BuildPackage(&types.Config{}, fset, pkg, []*ast.File{file}, ssa.SanityCheckFunctions)
+	if err != nil {
+		return false
+	}
+	count := func(name string) int {
+		fn := sp.Func(name)
+		if fn == nil {
+			return -1
+		}
+		k := 0
+		for _, f := range withAnon(fn) {
+			k += len(droppedErrors(f))
+		}
+		return k
+	}
+	// m: the captured err is overwritten by the closure before anyone loads it; n: the closure
+	// loads it; o: stored by a closure and read by the owner afterwards
+	return count("g") == 1 && count("h") == 1 && count("k") == 0 && count("m") == 1 && count("n") == 0 && count("o") == 0
+}
+
+// errorFallThrough: after `x, err := f(…)` an `if err != nil { … }` that does not leave (no return,
+// continue, break at its end, no else) falls through into code that goes on with x, the other
+// result of the call that failed - in this library a nil stream or a zero value that the next
+// stage waits on for ever or takes for data.
+func (c *Ctx) errorFallThrough(rule string, rels ...string) {
+	run := c.Run
+	n := 0
+	errType := types.Universe.Lookup("error").Type()
+	for _, rel := range rels {
+		pk := c.P.Pkg(rel)
+		if pk == nil {
+			continue
+		}
+		info := pk.TypesInfo
+		for _, f := range pk.Syntax {
+			if strings.HasSuffix(c.P.Fset.Position(f.Pos()).Filename, "_test.go") {
+				continue
+			}
+			for _, d := range f.Decls {
+				fd, ok := d.(*ast.FuncDecl)
+				if !ok || fd.Body == nil {
+					continue
+				}
+				fname := rel + "." + fd.Name.Name
+				if fd.Recv != nil && len(fd.Recv.List) == 1 {
+					fname = rel + ".(" + typeExprName(fd.Recv.List[0].Type) + ")." + fd.Name.Name
+				}
+				ast.Inspect(fd.Body, func(nd ast.Node) bool {
+					blk, ok := nd.(*ast.BlockStmt)
+					if !ok {
+						return true
+					}
+					for i := 0; i+1 < len(blk.List); i++ {
+						as, ok := blk.List[i].(*ast.AssignStmt)
+						if !ok || len(as.Lhs) < 2 || len(as.Rhs) != 1 {
+							continue
+						}
+						if _, isCall := as.Rhs[0].(*ast.CallExpr); !isCall {
+							continue
+						}
+						eid, ok := as.Lhs[len(as.Lhs)-1].(*ast.Ident)
+						if !ok {
+							continue
+						}
+						eobj := info.ObjectOf(eid)
+						if eobj == nil || !types.Identical(eobj.Type(), errType) {
+							continue
+						}
+						is, ok := blk.List[i+1].(*ast.IfStmt)
+						if !ok || is.Else != nil || is.Init != nil {
+							continue
+						}
+						be, ok := ast.Unparen(is.Cond).(*ast.BinaryExpr)
+						if !ok || be.Op != token.NEQ {
+							continue
+						}
+						cid, ok := ast.Unparen(be.X).(*ast.Ident)
+						if !ok || info.ObjectOf(cid) != eobj || !isNilIdent(ast.Unparen(be.Y)) {
+							continue
+						}
+						n++
+						if _, exits := endsWithExit(is.Body); exits {
+							run.Oblige(true)
+							continue
+						}
+						// does the code after the if go on with another result of the failed call?
+						bad := ""
+						for _, l := range as.Lhs[:len(as.Lhs)-1] {
+							lid, isID := l.(*ast.Ident)
+							if !isID || lid.Name == "_" {
+								continue
+							}
+							lobj := info.ObjectOf(lid)
+							for _, st := range blk.List[i+2:] {
+								if usesObj(info, st, lobj) {
+									bad = lid.Name
+								}
+							}
+						}
+						run.Oblige(bad == "")
+						if bad != "" {
+							c.violate(rule, fname, "falls through with "+bad, is.Pos(), "when "+exprString(as.Rhs[0])+" fails, the branch that handles the error does not leave, and the code goes on with `"+bad+"`, the other result of the failed call")
+						}
+					}
+					return true
+				})
+			}
+		}
+	}
+	run.Count("error_branches_after_tuple_calls", n)
+}
+
+// withAnon: the function and every function literal nested in it.
+func withAnon(fn *ssa.Function) []*ssa.Function {
+	out := []*ssa.Function{fn}
+	for i := 0; i < len(out); i++ {
+		out = append(out, out[i].AnonFuncs...)
+	}
+	return out
+}
+
+// jsonArrayOpen: a reader that loops `for decoder.More()` over the elements of a JSON array has
+// consumed the array's opening token first: some call of Token() on the same decoder dominates
+// every call of More(). Without it Decode is handed the whole array, fails (or, for a slice
+// element type, succeeds once with everything), and well-formed data is reported as malformed.
+func (c *Ctx) jsonArrayOpen(rule string, floor int, rels ...string) {
+	run := c.Run
+	run.Explanation += " A reader that loops over decoder.More() has consumed the opening token of the array on every way there (SSA dominance)."
+	n := 0
+	isDec := func(call *ssa.Call, name string) ssa.Value {
+		sc := call.Call.StaticCallee()
+		if sc == nil || sc.Name() != name || sc.Pkg == nil || sc.Pkg.Pkg.Path() != "encoding/json" || len(call.Call.Args) == 0 {
+			return nil
+		}
+		return call.Call.Args[0]
+	}
+	for _, rel := range rels {
+		pk := c.P.Pkg(rel)
+		if pk == nil {
+			continue
+		}
+		for _, fi := range c.P.Decls {
+			if fi.Pkg != pk || fi.Decl.Body == nil || strings.HasSuffix(c.P.Fset.Position(fi.Decl.Pos()).Filename, "_test.go") {
+				continue
+			}
+			root := c.ssaFunc(fi)
+			if root == nil {
+				continue
+			}
+			for _, fn := range withAnon(root) {
+				type at struct {
+					b *ssa.BasicBlock
+					i int
+				}
+				tokens := map[ssa.Value][]at{}
+				var mores []*ssa.Call
+				where := map[*ssa.Call]at{}
+				for _, b := range fn.Blocks {
+					for i, in := range b.Instrs {
+						call, ok := in.(*ssa.Call)
+						if !ok {
+							continue
+						}
+						if d := isDec(call, "Token"); d != nil {
+							tokens[d] = append(tokens[d], at{b, i})
+						}
+						if d := isDec(call, "More"); d != nil {
+							mores = append(mores, call)
+							where[call] = at{b, i}
+						}
+					}
+				}
+				for _, m := range mores {
+					n++
+					w := where[m]
+					ok := false
+					for _, t := range tokens[m.Call.Args[0]] {
+						if (t.b == w.b && t.i < w.i) || (t.b != w.b && t.b.Dominates(w.b)) {
+							ok = true
+						}
+					}
+					run.Oblige(ok)
+					if !ok {
+						c.violate(rule, load.FuncName(fi.Fn), "More without Token", m.Pos(), "the reader asks for More() elements of a JSON array whose opening token it has not consumed on every way there: the first Decode is handed the whole array")
+					}
+				}
+			}
+		}
+	}
+	run.Count("json_array_loops", n)
+	run.Floor("json_array_loops", floor)
 }
